@@ -23,7 +23,7 @@ OBSERVER_STEPS = ('dump_to_path', 'dump_to_zip', 'stream', 'checkpoint')
 
 def _expand(payload, sub):
     rng = random.Random(payload['gseed'])
-    tables = PL.gen_tables(rng, big_p=0.05)
+    tables = PL.gen_tables(rng, big_p=0.12)
     stats = {}
     sc = PL.gen_pipeline(rng, tables, payload['nsteps'], stats=stats)
     sc['source_kinds'] = [rng.choice(['list', 'gen']) for _ in tables]
@@ -50,11 +50,17 @@ def gen_fault(rng, sc, K, kv_ops):
     nres = len(sc['tables'])
     exc = rng.choice(F.EXC_CLASSES)
     kinds = ['step', 'step', 'step', 'source', 'poison']
+    if any(len(t['rows']) > 100 for t in sc['tables']):
+        kinds += ['source', 'source']
     if K > 0:
         kinds += ['io', 'io']
     if kv_ops > 0:
         kinds.append('kv')
     kind = rng.choice(kinds)
+    if exc == 'StopIteration':
+        # only a plain row function can raise StopIteration into a dataflows frame (inside a generator of the harness
+        # Python itself turns it into RuntimeError): e.g. next() on an exhausted lookup iterator
+        return {'kind': 'step', 'pos': rng.randrange(n + 1), 'phase': 'rowfunc', 'exc': exc, 'call': rng.choice([0, 1, 3])}
     if kind == 'step':
         pos = rng.randrange(n + 1)
         ph = rng.choice(['package', 'row', 'row', 'end', 'after-all', 'rowfunc'])
@@ -69,6 +75,11 @@ def gen_fault(rng, sc, K, kv_ops):
         return {'kind': 'poison', 'pos': rng.randrange(n + 1), 'res': rng.randrange(nres), 'row': rng.choice([0, 0, 1, 2]), 'field': rng.randrange(4), 'exc': exc}
     if kind == 'source':
         ti = rng.randrange(nres)
+        big = [i for i, t in enumerate(sc['tables']) if len(t['rows']) > 100]
+        if big and rng.random() < 0.7:
+            ti = rng.choice(big)        # a failure beyond the inference sample happens in the row phase
+            nrows = len(sc['tables'][ti]['rows'])
+            return {'kind': 'source', 'res': ti, 'after': rng.choice([100, 101, nrows - 1, nrows, (100 + nrows) // 2]), 'exc': exc}
         nrows = len(sc['tables'][ti]['rows'])
         return {'kind': 'source', 'res': ti, 'after': rng.choice([0, nrows, nrows // 2, max(0, nrows - 1), 100, 101]), 'exc': exc}
     if kind == 'io':
